@@ -404,6 +404,9 @@ def write_evidence_file(prop, tier, seed, plan, units, violations, known_hits, u
                          "source_hash": u.source_hash, "paths": u.paths, "obligations": n, "discharged": d,
                          "canaries_failed_as_expected": sum(1 for o in u.obligations if o.expect_fail and o.result == "sat"),
                          "inlined_callees": u.inlined, "callee_contracts_used": u.used_contracts,
+                         "assumed_interface_contracts": sorted(
+                             q for q in (u.used_contracts or [])
+                             if any(c.qualname == q and c.assume_only for c in REG.contracts.values())),
                          "leading_asserts_taken_as_requires": u.assumed_asserts,
                          "native_search": (getattr(u, "fuzz", {}) or {}).get("stats"),
                          "seconds": round(u.seconds, 2), "detail": u.detail[:300]})
@@ -437,12 +440,13 @@ def write_evidence_file(prop, tier, seed, plan, units, violations, known_hits, u
         "undecided": [obligation_key(u, ob) for u, ob in undecided],
         "checker_errors": [m for _, m in errors],
         "engine_notes": sorted(notes),
+        "assumed_interface_contracts": sorted({q for p in per_unit for q in p.get("assumed_interface_contracts", [])}),
         "explanation": plan.get("explanation", ""),
         "repo": loader.REPO,
     }
     if bounded_units:
-        coverage["evaluations"] = max(1, evaluations)
-        coverage["distinct_nontrivial"] = max(2, sum(getattr(u, "distinct", 0) for u in bounded_units))
+        coverage["evaluations"] = evaluations
+        coverage["distinct_nontrivial"] = sum(getattr(u, "distinct", 0) for u in bounded_units)
         coverage["rule"] = "; ".join(sorted(set(getattr(u, "rule", "") for u in bounded_units if getattr(u, "rule", ""))))
     ev = {"property_id": prop, "tier": tier if tier in ("quick", "thorough") else "quick", "seed": seed,
           "level": level, "coverage": coverage,
